@@ -216,14 +216,21 @@ func c08order(c *an.Ctx) {
 
 // c08root: X.Root reaches executeList only under the fact X.extends == nil; the blocks table comes from the incoming template.
 func c08root(c *an.Ctx) {
+	rootLeafRule(c, "C08.root", "C08.leaf", nil, 4)
+}
+
+// rootLeafRule: every function that executes a Template.Root installs the incoming (most-derived)
+// template's block table and executes the root only after walking the extends chain to its end.
+// C09 runs it over the include family under its own rule id (include, includeIfExists and exec must agree).
+func rootLeafRule(c *an.Ctx, rootID, leafID string, only func(f *an.Fn) bool, min int) {
 	p := c.P
 	tmpl := p.LookupType(p.Jet, "Template")
 	if tmpl == nil {
-		c.Anchor("C08.root", "type Template")
+		c.Anchor(rootID, "type Template")
 		return
 	}
 	n := 0
-	for _, f := range p.Fns {
+	for _, f := range p.Units() {
 		if f.Pkg != p.Jet || f.Body == nil {
 			continue
 		}
@@ -238,7 +245,7 @@ func c08root(c *an.Ctx) {
 			}
 			return true
 		})
-		if len(calls) == 0 {
+		if len(calls) == 0 || (only != nil && !only(f)) {
 			continue
 		}
 		n++
@@ -364,25 +371,25 @@ func c08root(c *an.Ctx) {
 			v := res[call]
 			switch {
 			case v == nil:
-				c.Undecided("C08.root", key, call.Pos(), "the executeList call was not reached by the exploration")
+				c.Undecided(rootID, key, call.Pos(), "the executeList call was not reached by the exploration")
 			case v.bad:
-				c.Bad("C08.root", key, call.Pos(), v.trail, "%s", v.msg)
+				c.Bad(rootID, key, call.Pos(), v.trail, "%s", v.msg)
 			default:
-				c.OK("C08.root", key, call.Pos(), "Root is executed only after the extends chain was walked to its end")
+				c.OK(rootID, key, call.Pos(), "Root is executed only after the extends chain was walked to its end")
 			}
 		}
 		for pos, v := range leafStores {
 			if v.bad {
-				c.Bad("C08.leaf", f.Name, pos, nil, "%s", v.msg)
+				c.Bad(leafID, f.Name, pos, nil, "%s", v.msg)
 			} else {
-				c.OK("C08.leaf", f.Name, pos, "the block table installed is the incoming template's processedBlocks")
+				c.OK(leafID, f.Name, pos, "the block table installed is the incoming template's processedBlocks")
 			}
 		}
 		if len(leafStores) == 0 {
-			c.Bad("C08.leaf", f.Name, f.Pos(), nil, "%s executes a template's Root but never installs that template's block table", f.Name)
+			c.Bad(leafID, f.Name, f.Pos(), nil, "%s executes a template's Root but never installs that template's block table", f.Name)
 		}
 	}
-	c.Expect("C08.root", "functions executing a Template.Root", n, 4)
+	c.Expect(rootID, "functions executing a Template.Root", n, min)
 }
 
 func templateVars(f *an.Fn, info *types.Info, tmpl *types.Named) []types.Object {
